@@ -43,6 +43,43 @@ add("C03",
     "sizes only.",
     "|score| <= 1e6; brute-force extreme is cross-checked against the closed-form range.")
 
+add("C04",
+    "property-based testing: Hypothesis-generated stacked 2x2 matrices; cell-wise reference "
+    "recomputation, algebraic identities, exact NaN locus, closed-form CI with stdlib normal",
+    "Exploration: definitions, complements, [0,1] range, NaN-iff-zero-denominator, CI centre / "
+    "half-width / nesting / mirroring / aliases are asserted on every generated matrix stack "
+    "(int64 and float64, size-0 axes, forced zero rows/columns).",
+    "statistics.NormalDist as the independent normal quantile; tolerances 1e-12 (algebra), 1e-9 "
+    "relative (CI).")
+
+add("C05",
+    "property-based testing: Hypothesis-generated class sets/labels/weights and equivalent "
+    "renderings; dictionary-count reference model, differential between renderings, conservation "
+    "and permutation-equivariance relations",
+    "Exploration: entry [i,j] against dictionary counting; dict/DataFrame/list renderings with "
+    "shuffled orders must give one matrix; one-vs-all sums, per-class metric shapes, as_dict "
+    "slices, class-permutation equivariance and accuracy=trace/pop on stacked matrices.",
+    "Per-class expected values reuse score_analysis.metrics on an independently built one-vs-all "
+    "array (binary formulas are C04's subject).")
+
+add("C06",
+    "property-based testing: Hypothesis-generated tie-free score sets for the crossing relation "
+    "and metamorphic (affine / negation) pairs; arbitrary tied and ulp-adjacent inputs for the "
+    "zero-EER implication",
+    "Exploration: FPR(t) and FNR(t) by the same object within one sample of e, e <= min hard "
+    "fraction, equivariance under increasing affine maps and direction reversal; for every input "
+    "a reported EER of exactly 0 must come with FPR(t) = FNR(t) = 0.",
+    "Tie-free inputs have separation >= 1e-3 (|score| <= ~2e6); tolerances 1/N+1e-6 (bisection "
+    "xtol), 1e-8 on e, 1e-6*range on t.")
+
+add("C07",
+    "property-based testing: Hypothesis-generated score sets; exact rational Mann-Whitney and "
+    "step-ROC-area reference models, additivity and axis-complement metamorphic relations",
+    "Exploration: auc() equals the exact Mann-Whitney statistic (ties anywhere, easy samples, "
+    "4 configs); partial AUC equals the exact rational step area on generated intervals, is "
+    "additive, bounded by the width, and obeys the y-/x-complement and axis-swap relations.",
+    "Reference models use fractions.Fraction (no rounding of their own); tolerance 1e-12 / 1e-9.")
+
 NOT_YET = {}
 
 
